@@ -36,11 +36,7 @@ class SolverMonitor(object):
 
         mon = self
 
-        def on_init(orig, args, kwargs):
-            r = orig(*args, **kwargs)
-            if mon.suspended:
-                return r
-            solver = args[0]
+        def snapshot(solver):
             try:
                 vs, cs = solver.vs, solver.cs
                 idx = {id(v): i for i, v in enumerate(vs)}
@@ -53,14 +49,29 @@ class SolverMonitor(object):
                 st = {"solver": solver, "inst": inst, "ops": Counter(), "equality": any(c.equality for c in cs),
                       "budget": mon.budget(len(vs), len(cs)), "total": 0, "diag": []}
                 mon.state[id(solver)] = st
-                mon.events["Solver.__init__"] += 1
+                return st
             except Exception as e:  # foreign objects: do not judge
-                mon.events["Solver.__init__.unsnapshotable"] += 1
+                mon.events["Solver.unsnapshotable"] += 1
+                return None
+
+        def on_init(orig, args, kwargs):
+            r = orig(*args, **kwargs)
+            if mon.suspended:
+                return r
+            if snapshot(args[0]) is not None:
+                mon.events["Solver.__init__"] += 1
             return r
 
         def on_solve(orig, args, kwargs):
             solver = args[0]
             st = mon.state.get(id(solver)) if not mon.suspended else None
+            if (st is None or st["solver"] is not solver) and not mon.suspended and not mon.stack:
+                # solve() called again on a solver that was solved before (possibly with new desired positions): the
+                # problem it is asked to solve now is what its variables and constraints say at this moment
+                st = snapshot(solver)
+                if st is not None:
+                    st["resolve"] = True
+                    mon.events["Solver.solve.again"] += 1
             if st is None or st["solver"] is not solver:
                 return orig(*args, **kwargs)
             mon.stack.append(st)
@@ -80,7 +91,7 @@ class SolverMonitor(object):
                 mon.state.pop(id(solver), None)
                 mon.events["Solver.solve"] += 1
                 rec = {"inst": st["inst"], "ops": dict(st["ops"]), "total_ops": st["total"], "budget": st["budget"], "exc": exc,
-                       "cost": cost, "diag": st["diag"][:5], "equality": st["equality"], "rounds": st.get("rounds", [])[-6:]}
+                       "cost": cost, "diag": st["diag"][:5], "equality": st["equality"], "rounds": st.get("rounds", [])[-6:], "resolve": bool(st.get("resolve"))}
                 if exc is None:
                     try:
                         rec["x"] = [v.position() for v in solver.vs]
